@@ -354,4 +354,40 @@ def _judge_triple(case, res):
     if ab[1] and bc[1] and not ac[1]:
         res.fail('law:transitivity:%s' % ty, 'a<b, b<c => a<c',
                  [ab[1], bc[1], ac[1]])
+    # the SAME value objects compared several times in a row: an answer must
+    # not depend on what the object was compared with before
+    la, lb, lc = to_lib(a), to_lib(b), to_lib(c)
+    for name, sym in OPS:
+        f = lib.fn(name)
+        try:
+            seq = [norm(f(la, lb)), norm(f(la, lc)), norm(f(lb, lc)),
+                   norm(f(lc, la)), norm(f(la, lc))]
+            fresh = [norm(f(to_lib(a), to_lib(b))),
+                     norm(f(to_lib(a), to_lib(c))),
+                     norm(f(to_lib(b), to_lib(c))),
+                     norm(f(to_lib(c), to_lib(a))),
+                     norm(f(to_lib(a), to_lib(c)))]
+        except Exception as err:  # noqa: BLE001
+            res.fail('exception-or-nonbool:%s:%s' % (type(err).__name__, ty),
+                     'boolean', exc_tag(err))
+            return res
+        if seq != fresh:
+            res.fail('answer-depends-on-earlier-comparisons:%s' % ty, fresh,
+                     seq, sym)
+            return res
+    # ... and one CELL referenced twice in one formula
+    import zlib
+    if zlib.crc32(repr((a, b, c)).encode()) % 5 == 0 and all(
+            v[0] in ('n', 's') and not (v[0] == 's' and (
+                v[1] == '' or v[1].startswith('='))) for v in (a, b, c)):
+        cells = {'Sheet1!A1': a[1], 'Sheet1!B1': b[1], 'Sheet1!C1': c[1]}
+        for sym in ('=', '<', '<='):
+            f1 = '=IF(A1<>B1,A1%sC1,A1%sC1)' % (sym, sym)
+            f2 = '=A1%sC1' % sym
+            o1 = lib.eval_formula(f1, cells, addr='Sheet1!Z1')[0]
+            o2 = lib.eval_formula(f2, cells, addr='Sheet1!Z1')[0]
+            if o1 != o2:
+                res.fail('cell-compared-twice-in-one-formula:%s' % ty, o2,
+                         o1, [f1, cells])
+                return res
     return res
